@@ -630,6 +630,13 @@ def f_asarray(obj, dtype=None, **kw):
     return f_array(obj, dtype=dtype, copy=False)
 
 
+def f_fromiter(it, dtype=float, count=-1, **kw):
+    vals = list(it)
+    if builtins.any(_has_symbolic(v) for v in vals):
+        return sarr(vals, _np.dtype(float))
+    return _np.fromiter(vals, dtype=_dt(dtype), count=count)
+
+
 def f_arange(*args, **kw):
     if builtins.any(_has_symbolic(a) for a in args):
         raise S.SymbolicLeak("arange with symbolic bounds")
@@ -1023,6 +1030,7 @@ class _Facade:
     array = staticmethod(f_array)
     asarray = staticmethod(f_asarray)
     arange = staticmethod(f_arange)
+    fromiter = staticmethod(f_fromiter)
     linspace = staticmethod(f_linspace)
     diag = staticmethod(f_diag)
     eye = staticmethod(f_eye)
